@@ -228,6 +228,13 @@ def run_unit(unit, progress):
                     rt_.n_after_sync = getattr(rt_, "n_after_sync", 0) + 1
                     t = asynq_scheduler.get_active_task()
                     mine = rt_.task_of_frame.get(id(fr))
+                    if mine is not None and mine.is_computed():
+                        # a body still executing although its task already has its outcome: it was failed from
+                        # outside, and while its generator was being closed it swallowed the exception of its own
+                        # teardown (a context's pause() failing in __exit__) and carried on. The statement is about
+                        # tasks that are running; this one is over.
+                        rt_.n_zombie_bodies = getattr(rt_, "n_zombie_bodies", 0) + 1
+                        return
                     if mine is not None and t is not mine:
                         rt_.violation("active-task-wrong-after-nested-sync-call", {"task": fr.path, "nested_call_returned_normally": ok, "active": repr(t)[:160]})
 
@@ -249,6 +256,7 @@ def run_unit(unit, progress):
             tl.harvest(rt, c)
             inc("active_task_checks_in_scheduler_run_code", getattr(rt, "n_stale_active_checks", 0))
             inc("after_sync_checks", getattr(rt, "n_after_sync", 0))
+            inc("sync_calls_made_by_bodies_whose_task_was_already_over", getattr(rt, "n_zombie_bodies", 0))
             if opts["kind"] == "closefail" and sum(1 for ev in rt.log if ev[0] == "ctx_fault") >= 2:
                 inc("bodies_raising_while_their_generator_is_closed")
             inc("sync_waits_on_a_task_created_elsewhere", sum(1 for ev in rt.log if ev[0] == "sync_enter" and ev[2][:1] == ("S",)))
